@@ -1,0 +1,22 @@
+//go:build verif
+
+package zenodb
+
+import (
+	"os"
+	"strconv"
+	"strings"
+	"time"
+)
+
+// verifScale lets the verification harness shorten a background interval:
+// ZVH_SCALE_<NAME>=<milliseconds> (e.g. ZVH_SCALE_OLDFILES=30). Without the
+// variable the production interval is used.
+func verifScale(name string, d time.Duration) time.Duration {
+	if v := os.Getenv("ZVH_SCALE_" + strings.ToUpper(name)); v != "" {
+		if ms, err := strconv.Atoi(v); err == nil && ms > 0 {
+			return time.Duration(ms) * time.Millisecond
+		}
+	}
+	return d
+}
